@@ -149,7 +149,9 @@ func (c *Ctx) collectFns() {
 			return
 		}
 		seen[f] = true
-		if len(f.Blocks) > 0 && f.Synthetic == "" {
+		// source functions and closures; the body of a range-over-func loop is a synthetic closure of its function
+		// and holds source statements like any other closure
+		if len(f.Blocks) > 0 && (f.Synthetic == "" || f.Synthetic == "range-over-func yield") {
 			c.AllFns = append(c.AllFns, f)
 		}
 		for _, a := range f.AnonFuncs {
